@@ -158,6 +158,10 @@ def finding_matches(f, prop, spec, full, failed_clauses, inputs):
     # counterexample happens to violate as well): a different violation of the same property is still reported
     if key.get("obligation") and key["obligation"] != full.split(":", 1)[1]:
         return False
+    if key.get("obligation_re"):
+        import re
+        if not re.fullmatch(key["obligation_re"], full.split(":", 1)[1]):
+            return False
     pred = key.get("input_class")
     if pred:
         try:
@@ -205,14 +209,17 @@ def handle_failure(spec, case, ob, r, status, solver, model_vals, detail, full, 
         else:
             rep.undecided.append({"spec": spec.name, "obligation": full, "why": "solver %s: %s" % (status, detail[:300])})
             return
+    matched = False
     for f in findings:
         if finding_matches(f, rep.prop, spec, full, failed_clauses, inputs):
             if not any(k["id"] == f["id"] for k in rep.known):
                 rep.known.append(f)
-            rep.obligations -= 1
-            if spec.level == "B":
-                rep.bounded_obligations -= 1
-            return
+            matched = True
+    if matched:
+        rep.obligations -= 1
+        if spec.level == "B":
+            rep.bounded_obligations -= 1
+        return
     replay["confirmed_on_real_code"] = confirmed
     rep.violations.append(replay)
 
